@@ -7,8 +7,24 @@ COMMON_TB = [
 ]
 FLOAT_TB = "IEEE-754 rounding: theorems are over exact rationals; the f64 instance of the same definitions is compared bit-for-bit with the Rust results on the generated cases"
 CONSTS = {"script": "gen_consts.py"}
+UNITS = {"script": "gen_units.py"}
+
+CHARTABLE = {"harness": ["chartable", "{LEAN}/CookModel/Gen/CharTable.lean"]}
+SYNTAX_TB = [
+    "the character-class table (Gen/CharTable.lean) is produced on every run by the real lexer (cfg(cooklang_verif) token hook) and std's char predicates over all 1,112,064 scalar values; the theorems hold for every CharSpec",
+    "modelled, not verified: finl_unicode / std Unicode tables (through the generated table), codesnake's renderer (only exercised: SourceReport::write is run on every report)",
+    "translators/gen_consts.py (extension and modifier flag values from src/lib.rs, src/parser/model.rs)",
+]
 
 PROPS = {
+    "C11": {
+        "gen": [],
+        "trusted_base": COMMON_TB + [
+            "modelled, not verified: std `str::lines`, `split_once`, `split`, `trim` (`trim_matches` slice offsets), `starts_with`/`ends_with`, slicing, `HashSet`/`HashMap` get/insert; re-implemented over List Char in lean/CookModel/Side/Aisle.lean and tied to std by the exhaustive + random correspondence run",
+            "the explicit Unicode White_Space table of the model is compared with `char::is_whitespace` over all scalar values in every run (op ws_table)"],
+        "assumptions": ["text is a sequence of Unicode scalar values (Rust `&str`); byte offsets are sums of UTF-8 lengths",
+                        "`AisleConf` equality is taken on freshly parsed configurations (the private `len` cache cell is 0); `ingredients_info` is the lookup"],
+    },
     "C12": {
         "gen": [CONSTS],
         "trusted_base": COMMON_TB + [FLOAT_TB,
@@ -16,6 +32,67 @@ PROPS = {
             "modelled, not verified: std f64 trunc/round/fract/as-casts (Lean Float ops are assumed to be the same IEEE operations)"],
         "assumptions": ["theorems hold for every structurally well-formed lookup table; that the table built with f64 arithmetic equals the one built exactly is checked at run time by the driver, not proved",
                         "accuracy in [0,1] and max_den <= 64 (the documented preconditions; callers are checked under C03/C16)"],
+    },
+    "C09": {
+        "gen": [CONSTS, UNITS],
+        "trusted_base": COMMON_TB + [FLOAT_TB,
+            "translators/gen_units.py (units.toml -> Gen/Units.lean: exact decimals + f64 bits, id order and SI expansion of ConverterBuilder, fractions layers resolved as build_fractions_config does); its output is compared row by row with Converter::bundled() by the check",
+            "translators/gen_consts.py (the 0.001 slack of best_unit)",
+            "the hand-written table of standard definitions (stdDef in Lemmas/Convert.lean, std_def in harness/src/props/c09.rs)",
+            "modelled, not verified: std f64 abs / partial_cmp, Iterator::min_by / rev / find, slice::sort_by (stable); the unit index, Arc identity and all_units[id] are represented by resolved records carrying their id"],
+        "assumptions": ["the converter is well formed (Converter.wf: best lists hold units of their own quantity, every unit has a key, fractions configurations within new_approx's documented preconditions); decided for the generated bundled converter (C09_bundled_wf), for other converters it is C16's invariant",
+                        "oracle values are finite with magnitude in [1e-9, 1e12] or zero (outside that range f64 overflow/underflow makes 'within floating-point tolerance' meaningless); non-finite and extreme values are compared with the model only"],
+    },
+    "C04": {
+        "gen": [CONSTS, CHARTABLE],
+        "trusted_base": COMMON_TB + SYNTAX_TB,
+        "assumptions": ["theorems cover the lexer (tiling, boundaries) and text assembly (fragment faithfulness, order) for every input; the span arithmetic of the individual block parsers and of the analysis labels is covered by the correspondence run (every span of every event/diagnostic compared with the model) and by the oracle on the implementation, not by a theorem yet"],
+    },
+    "C06": {
+        "gen": [CONSTS, CHARTABLE],
+        "trusted_base": COMMON_TB + SYNTAX_TB + ["external to the model (parameters): serde_yaml (front matter content is not interpreted; metadata and diagnostics that depend on it are excluded from the compared reply), check_std_entry on `>>` values (until the std-metadata model is plugged in its warnings are excluded from the compared reply), unicase folding (table extracted from the real crate on every run), converter key lookup (table extracted from Converter::bundled() on every run)"],
+        "assumptions": ["proved: intermediate-reference resolution stays in range; the other clauses of the invariant (C06_statement, kept at full strength) are decided per run by the invariant oracle on the implementation and by whole-recipe correspondence, not by a theorem yet"],
+    },
+    "C07": {
+        "gen": [CONSTS, CHARTABLE],
+        "trusted_base": COMMON_TB + SYNTAX_TB + ["external to the model (parameters): serde_yaml (front matter content is not interpreted; metadata and diagnostics that depend on it are excluded from the compared reply), check_std_entry on `>>` values (until the std-metadata model is plugged in its warnings are excluded from the compared reply), unicase folding (table extracted from the real crate on every run), converter key lookup (table extracted from Converter::bundled() on every run)"],
+        "assumptions": ["proved: validity definition, parse-error short-circuit, output kept without parse errors; soundness on well-formed recipes and completeness/placement of the 33 catalogued constructs are tested (planted constructs, oracle + model correspondence of every label), not proved"],
+    },
+    "C01": {
+        "gen": [CONSTS, CHARTABLE],
+        "trusted_base": COMMON_TB + SYNTAX_TB + ["external to the model (parameters): serde_yaml (front matter content is not interpreted; metadata and diagnostics that depend on it are excluded from the compared reply), check_std_entry on `>>` values (until the std-metadata model is plugged in its warnings are excluded from the compared reply), unicase folding (table extracted from the real crate on every run), converter key lookup (table extracted from Converter::bundled() on every run)"],
+        "assumptions": ["proved: value-level read-back (integers, decimals with arbitrary blank/comment padding), range gating, plain text runs; composition over components/steps/blocks/analysis (C01_statement) is tested on random abstract recipes x 4 spelling styles, not proved",
+                        "the spelling styles vary only what the documented syntax leaves free (DESIGN.md section 6 C01): spacing around tokens, comments between words, line wrapping in step text, CRLF, percent sign vs space before the unit under ADVANCED_UNITS"],
+    },
+    "C02": {
+        "gen": [CONSTS, CHARTABLE],
+        "trusted_base": COMMON_TB + SYNTAX_TB + ["external to the model (parameters): serde_yaml (front matter content is not interpreted; metadata and diagnostics that depend on it are excluded from the compared reply), check_std_entry on `>>` values (until the std-metadata model is plugged in its warnings are excluded from the compared reply), unicase folding (table extracted from the real crate on every run), converter key lookup (table extracted from Converter::bundled() on every run)"],
+        "assumptions": ['proved: gate lemmas (modifiers / range / alias gates off read as core); the main clause and the per-flag readings are tested over all 256 raw patterns against oracle and model'],
+    },
+    "C03": {
+        "gen": [CONSTS, CHARTABLE],
+        "trusted_base": COMMON_TB + SYNTAX_TB + ["external to the model (parameters): serde_yaml (front matter content is not interpreted; metadata and diagnostics that depend on it are excluded from the compared reply), check_std_entry on `>>` values (until the std-metadata model is plugged in its warnings are excluded from the compared reply), unicase folding (table extracted from the real crate on every run), converter key lookup (table extracted from Converter::bundled() on every run)"] + ["the worker subprocess / watchdog runner of the harness (10 s per case)"],
+        "assumptions": ["proved: text assembly never asserts on lexed runs, blocks handed to BlockParser::new are non-empty and without trailing newline, pull_line makes progress; the rest of C03_statement (the panic flag of the model is never set) is compared with the real code's panics per run", 'cannot be exhibited by the model, only observed by the worker/watchdog runs: stack exhaustion, allocation failure, time complexity, panics inside dependencies'],
+    },
+    "C05": {
+        "gen": [CONSTS, CHARTABLE],
+        "trusted_base": COMMON_TB + SYNTAX_TB + ["external to the model (parameters): serde_yaml (front matter content is not interpreted; metadata and diagnostics that depend on it are excluded from the compared reply), check_std_entry on `>>` values (until the std-metadata model is plugged in its warnings are excluded from the compared reply), unicase folding (table extracted from the real crate on every run), converter key lookup (table extracted from Converter::bundled() on every run)"],
+        "assumptions": ['proved: pull_line loses no token; every letter/digit of a non-comment token of a text run is in the assembled text; the whole-document clause is tested (oracle on event spans + event correspondence)'],
+    },
+    "C14": {
+        "gen": [CONSTS, CHARTABLE],
+        "trusted_base": COMMON_TB + SYNTAX_TB + ["external to the model (parameters): serde_yaml (front matter content is not interpreted; metadata and diagnostics that depend on it are excluded from the compared reply), check_std_entry on `>>` values (until the std-metadata model is plugged in its warnings are excluded from the compared reply), unicase folding (table extracted from the real crate on every run), converter key lookup (table extracted from Converter::bundled() on every run)"],
+        "assumptions": ['proved: the metadata-only scanner only ever hands `>>` lines to metadata_entry and emits exactly the front-matter event when there is front matter; equality of the resulting metadata is tested (oracle on both real parses + model)'],
+    },
+    "C17": {
+        "gen": [CONSTS, CHARTABLE],
+        "trusted_base": COMMON_TB + SYNTAX_TB + ["external to the model (parameters): serde_yaml (front matter content is not interpreted; metadata and diagnostics that depend on it are excluded from the compared reply), check_std_entry on `>>` values (until the std-metadata model is plugged in its warnings are excluded from the compared reply), unicase folding (table extracted from the real crate on every run), converter key lookup (table extracted from Converter::bundled() on every run)"],
+        "assumptions": ['proved at text-assembly level for all token runs and offsets (comment insertion, trailing comment/space, LF vs CRLF newline tokens); the end-to-end clause (recipe equal up to whitespace in step text, validity equal) is tested on well-formed recipes and filtered soups'],
+    },
+    "C18": {
+        "gen": [CONSTS, CHARTABLE],
+        "trusted_base": COMMON_TB + SYNTAX_TB + ["external to the model (parameters): serde_yaml (front matter content is not interpreted; metadata and diagnostics that depend on it are excluded from the compared reply), check_std_entry on `>>` values (until the std-metadata model is plugged in its warnings are excluded from the compared reply), unicase folding (table extracted from the real crate on every run), converter key lookup (table extracted from Converter::bundled() on every run)"],
+        "assumptions": ['proved for the instance model: replies are independent of history and of any interleaving of calls; the model has no state other than the lazily built fraction table, which parsing never reads', 'cannot be exhibited by the model: data races, memory-model effects, Sync soundness of dependencies, RandomState seeding; observed only (2..16 threads sharing one parser; CooklangParser: Send + Sync is checked by the compiler in the harness)'],
     },
     "C19": {
         "gen": [],
